@@ -521,7 +521,7 @@ def gen_func(rng, oid, knobs):
 
 
 def gen_fault(rng, profile, c, o, slots):
-    kind_pool = [("op_error", 3), ("async_exc", 2)]
+    kind_pool = [("op_error", 3), ("async_exc", 2), ("c_error", 2)]
     io_capable = o["op"] == "load" or (o["op"] in ("construct", "restart")
                                        and slots[o["slot"]] in IO_FAMILIES) \
         or (o["op"] == "func" and o.get("fn") in ("cplxdual2D", "prepfn"))
@@ -534,7 +534,11 @@ def gen_fault(rng, profile, c, o, slots):
             kind_pool += [("io_flip", w)]
     kind = _wchoice(rng, kind_pool)
     f = {"client": c, "op_id": o["id"], "kind": kind}
-    if kind == "op_error":
+    if kind == "c_error":
+        # the n-th torch / numpy C call made directly by a library frame fails
+        f["exc"] = _pick(rng, ["RuntimeError", "RuntimeError", "MemoryError"])
+        f["at"] = _logu(rng, 1, max(8, LMAX[o["op"]] // 6))
+    elif kind == "op_error":
         f["exc"] = _pick(rng, ["RuntimeError", "RuntimeError", "MemoryError"])
         f["at"] = _logu(rng, 1, LMAX[o["op"]])
     elif kind == "async_exc":
